@@ -1,28 +1,71 @@
 (* Proofs/SL2Force.v — C02 version 2 (strict/lazy simulation WITH scoped variables), part 1: worlds,
    denotations, the thunk store, the scoped cells and the two forcing lemmas.
-   A WORLD gives every store location its value and a purity flag, and lists the scoped-variable
-   definitions executed so far as (syntax node, name, location of the value thunk), in execution order.
+   A WORLD gives every store location its value and a purity flag, lists the scoped-variable definitions
+   executed so far as (syntax node, name, location of the value thunk) in execution order, and records the
+   syntax tree and the inherited names it is about.
    `den2 w b lv v`: the lazy value lv denotes v; in PURE mode (b = true) lv contains no scoped read and
    mentions only pure locations.  A pure thunk has a pure body; every thunk body mentions only EARLIER
-   locations, a scoped read `LScoped sv name` denotes the value of a definition whose value thunk is an
-   earlier location.  Cells: the cell of `name` lists, in order, the definitions of `name` in the world,
-   with PURE scope values (so forcing a cell never re-enters a cell: this excludes the K7 class).
-   Level 0: forcing a pure value touches only pure thunks and no cell.  Level 1: forcing any value
-   forces the cells it reads (their scopes at level 0) and yields exactly the denoted value. *)
-From TSG Require Import Model.Lazy Proofs.BaseFacts Proofs.Containers Proofs.MonadFacts Proofs.SLGraph Proofs.SLForce.
+   locations; a scoped read `LScoped sv name` on node n denotes the value of a definition of `name` on n — or,
+   for an inherited name, on a proper ancestor of n — whose value thunk is an earlier location.
+   Cells: the cell of `name` lists, in order, the definitions of `name` in the world, with PURE scope values
+   (so forcing a cell never re-enters a cell: this excludes the K7 class).
+   Level 0 (`force0_all`): forcing a pure value touches only pure thunks and no cell.
+   Level 1 (`force1_all`): forcing any value forces the cells it reads (their scopes at level 0: no duplicate
+   node because the world has one definition per (node, name)), resolves the read on the forced map
+   (`resolve_forced`: own node first; for an inherited name the nearest defining ancestor, which is the
+   recorded one because no definer has a defining proper ancestor: `sig_antichain`) and then forces the value
+   thunk found; it yields exactly the denoted value.  Never an error, never a panic. *)
+From TSG Require Import Model.Lazy Proofs.BaseFacts Proofs.Containers Proofs.MonadFacts Proofs.SLGraph Proofs.SLForce Proofs.Scoped.
 
-Record world := W { w_rho : list (value * bool); w_sig : list (N * ident * nat) }.
-Definition wcut (k : nat) (w : world) : world := W (firstn k (w_rho w)) (w_sig w).
-Definition wext (w w' : world) : Prop := prefix (w_rho w) (w_rho w') /\ prefix (w_sig w) (w_sig w').
-Lemma wext_refl w : wext w w. Proof. split; apply prefix_refl. Qed.
+Record world := W { w_rho : list (value * bool); w_sig : list (N * ident * nat); w_tree : tree; w_inhl : list ident }.
+Definition wcut (k : nat) (w : world) : world := W (firstn k (w_rho w)) (w_sig w) (w_tree w) (w_inhl w).
+Definition wext (w w' : world) : Prop :=
+  prefix (w_rho w) (w_rho w') /\ prefix (w_sig w) (w_sig w') /\ w_tree w' = w_tree w /\ w_inhl w' = w_inhl w.
+Lemma wext_refl w : wext w w. Proof. repeat split; apply prefix_refl. Qed.
 Lemma wext_trans a b c : wext a b -> wext b c -> wext a c.
-Proof. intros [A1 A2] [B1 B2]. split; eapply prefix_trans; eauto. Qed.
+Proof. intros (A1 & A2 & A3 & A4) (B1 & B2 & B3 & B4). split; [eapply prefix_trans; eauto|]. split; [eapply prefix_trans; eauto|]. split; congruence. Qed.
 Lemma prefix_firstn {A} (l l' : list A) i : prefix l l' -> prefix (firstn i l) (firstn i l').
 Proof. intros [r ->]. rewrite firstn_app. apply prefix_app. Qed.
 Lemma wext_cut i w w' : wext w w' -> wext (wcut i w) (wcut i w').
-Proof. intros [A1 A2]. split; cbn [wcut w_rho w_sig]; [apply prefix_firstn, A1|exact A2]. Qed.
+Proof. intros (A1 & A2 & A3 & A4). split; cbn [wcut w_rho w_sig w_tree w_inhl]; [apply prefix_firstn, A1|]. auto. Qed.
 Lemma wcut_all w k : k = length (w_rho w) -> wcut k w = w.
-Proof. intros ->. destruct w as [r s]. unfold wcut. cbn [w_rho w_sig]. rewrite firstn_all. reflexivity. Qed.
+Proof. intros ->. destruct w as [r s tr il]. unfold wcut. cbn [w_rho w_sig w_tree w_inhl]. rewrite firstn_all. reflexivity. Qed.
+(* the proper ancestors of a syntax node, nearest first (the chain both interpreters walk for inherited names) *)
+Definition parent_of (t : tree) (n : N) : option N := match node_at t n with Some nd => tn_parent nd | None => None end.
+Definition anc (t : tree) (n : N) : list N := ancestors t (S (length (t_nodes t))) (parent_of t n).
+Definition winh (w : world) (name : ident) : bool := existsb (str_eqb name) (w_inhl w).
+Lemma ancestors_mono t : forall f f' p x, (f <= f')%nat -> In x (ancestors t f p) -> In x (ancestors t f' p).
+Proof.
+  induction f as [|f IH]; intros f' p x Hle Hin; [destruct Hin|]. destruct f' as [|f']; [lia|]. cbn [ancestors] in *.
+  destruct p as [a|]; [|destruct Hin]. destruct Hin as [->|Hin]; [left; reflexivity|right]. apply (IH f'); [lia|exact Hin].
+Qed.
+(* two ancestors of one node are comparable *)
+Lemma ancestors_chain t : forall f p x y, In x (ancestors t f p) -> In y (ancestors t f p) ->
+  x = y \/ In y (ancestors t f (parent_of t x)) \/ In x (ancestors t f (parent_of t y)).
+Proof.
+  induction f as [|f IH]; intros p x y Hx Hy; [destruct Hx|]. cbn [ancestors] in Hx, Hy. destruct p as [a|]; [|destruct Hx].
+  fold (parent_of t a) in Hx, Hy. destruct Hx as [<-|Hx], Hy as [<-|Hy].
+  - left. reflexivity.
+  - right. left. apply (ancestors_mono t f (S f)); [lia|exact Hy].
+  - right. right. apply (ancestors_mono t f (S f)); [lia|exact Hx].
+  - destruct (IH _ x y Hx Hy) as [E|[H|H]]; [left; exact E|right; left|right; right]; apply (ancestors_mono t f (S f)); try lia; exact H.
+Qed.
+Lemma anc_chain t n x y : In x (anc t n) -> In y (anc t n) -> x = y \/ In y (anc t x) \/ In x (anc t y).
+Proof. apply ancestors_chain. Qed.
+Lemma first_some_In {A B} (f : A -> option B) l y : first_some f l = Some y -> exists x, In x l /\ f x = Some y.
+Proof.
+  induction l as [|a l IH]; cbn [first_some]; [discriminate|]. destruct (f a) as [b|] eqn:E.
+  - intros [= <-]. exists a. split; [left; reflexivity|exact E].
+  - intros H. destruct (IH H) as (x & Hx & Hf). exists x. split; [right; exact Hx|exact Hf].
+Qed.
+Lemma first_some_unique {B} (f : N -> option B) l x y : In x l -> f x = Some y -> (forall x', In x' l -> x' <> x -> f x' = None) ->
+  first_some f l = Some y.
+Proof.
+  induction l as [|a l IH]; intros Hin Hf Hn; [destruct Hin|]. cbn [first_some]. destruct (N.eq_dec a x) as [->|Hne].
+  - rewrite Hf. reflexivity.
+  - rewrite (Hn a (or_introl eq_refl) Hne). destruct Hin as [E|Hin]; [contradiction|]. apply IH; [exact Hin|exact Hf|].
+    intros x' Hx' Hne'. apply Hn; [right; exact Hx'|exact Hne'].
+Qed.
 Lemma prefix_In {A} (l l' : list A) x : prefix l l' -> In x l -> In x l'.
 Proof. intros [r ->] H. apply in_or_app. left. exact H. Qed.
 
@@ -151,18 +194,20 @@ Section Den2.
   | d2_list ls vs : Forall2 (den2 w b) ls vs -> den2 w b (LList ls) (VList vs)
   | d2_set ls vs : Forall2 (den2 w b) ls vs -> den2 w b (LSet ls) (VSet (set_of_list vs))
   | d2_var loc v pb : nth_error (w_rho w) (N.to_nat loc) = Some (v, pb) -> (b = true -> pb = true) -> den2 w b (LVar loc) v
-  | d2_scoped sv name n loc v pb : b = false -> den2 w b sv (VSyn n) -> In (n, name, loc) (w_sig w) ->
+  | d2_scoped sv name n a loc v pb : b = false -> den2 w b sv (VSyn n) ->
+      (a = n \/ (winh w name = true /\ In a (anc (w_tree w) n))) -> In (a, name, loc) (w_sig w) ->
       nth_error (w_rho w) loc = Some (v, pb) -> den2 w b (LScoped sv name) v
   | d2_call f args vs v : Forall2 (den2 w b) args vs -> (forall g, call f g vs = Ok (v, g)) -> den2 w b (LCall f args) v.
 
   Lemma den2_mono w w' : wext w w' -> forall b lv v, den2 w b lv v -> den2 w' b lv v.
   Proof.
-    intros [Hr Hs] b. fix IH 3. intros lv v H. destruct H as [v|ls vs HF|ls vs HF|loc v pb Hn Hb|sv name n loc v pb Eb Hsv Hin Hn|f args vs v HF Hc].
+    intros (Hr & Hs & Ht & Hi) b. fix IH 3. intros lv v H. destruct H as [v|ls vs HF|ls vs HF|loc v pb Hn Hb|sv name n a loc v pb Eb Hsv Ha Hin Hn|f args vs v HF Hc].
     - constructor.
     - constructor. revert ls vs HF. fix IHF 3. intros ls vs HF. destruct HF as [|x y l l' Hxy HF]; constructor; [apply IH, Hxy|apply IHF, HF].
     - constructor. revert ls vs HF. fix IHF 3. intros ls vs HF. destruct HF as [|x y l l' Hxy HF]; constructor; [apply IH, Hxy|apply IHF, HF].
     - apply (d2_var _ _ loc v pb); [apply (prefix_nth _ _ _ _ Hr Hn)|exact Hb].
-    - apply (d2_scoped _ _ sv name n loc v pb); [exact Eb|apply IH, Hsv|apply (prefix_In _ _ _ Hs Hin)|apply (prefix_nth _ _ _ _ Hr Hn)].
+    - apply (d2_scoped _ _ sv name n a loc v pb); [exact Eb|apply IH, Hsv| |apply (prefix_In _ _ _ Hs Hin)|apply (prefix_nth _ _ _ _ Hr Hn)].
+      unfold winh. rewrite Ht, Hi. exact Ha.
     - apply (d2_call _ _ f args vs v); [|exact Hc]. clear Hc. revert args vs HF. fix IHF 3. intros args vs HF.
       destruct HF as [|x y l l' Hxy HF]; constructor; [apply IH, Hxy|apply IHF, HF].
   Qed.
@@ -172,12 +217,12 @@ Section Den2.
   (* a pure denotation is a denotation *)
   Lemma den2_weaken w b : forall lv v, den2 w b lv v -> den2 w false lv v.
   Proof.
-    fix IH 3. intros lv v H. destruct H as [v|ls vs HF|ls vs HF|loc v pb Hn Hb|sv name n loc v pb Eb Hsv Hin Hn|f args vs v HF Hc].
+    fix IH 3. intros lv v H. destruct H as [v|ls vs HF|ls vs HF|loc v pb Hn Hb|sv name n a loc v pb Eb Hsv Ha Hin Hn|f args vs v HF Hc].
     - constructor.
     - constructor. revert ls vs HF. fix IHF 3. intros ls vs HF. destruct HF as [|x y l l' Hxy HF]; constructor; [apply IH, Hxy|apply IHF, HF].
     - constructor. revert ls vs HF. fix IHF 3. intros ls vs HF. destruct HF as [|x y l l' Hxy HF]; constructor; [apply IH, Hxy|apply IHF, HF].
     - apply (d2_var _ _ loc v pb); [exact Hn|discriminate].
-    - apply (d2_scoped _ _ sv name n loc v pb); [reflexivity|apply IH, Hsv|exact Hin|exact Hn].
+    - apply (d2_scoped _ _ sv name n a loc v pb); [reflexivity|apply IH, Hsv|exact Ha|exact Hin|exact Hn].
     - apply (d2_call _ _ f args vs v); [|exact Hc]. clear Hc. revert args vs HF. fix IHF 3. intros args vs HF.
       destruct HF as [|x y l l' Hxy HF]; constructor; [apply IH, Hxy|apply IHF, HF].
   Qed.
@@ -206,7 +251,7 @@ Section Den2.
   Definition Sfull (w : world) (st : list thunk) : Prop :=
     length (w_rho w) = length st /\ forall i th, nth_error st i = Some th -> thunk_ok2 w i th.
 
-  Lemma Sfull_nil : Sfull (W [] []) [].
+  Lemma Sfull_nil tr il : Sfull (W [] [] tr il) [].
   Proof. split; [reflexivity|]. intros [|i] th H; discriminate. Qed.
   Lemma Sfull_S1 k w st : Sfull w st -> S1 k w st.
   Proof. intros [Hl H]. split; [exact Hl|]. intros i th Hn _. apply (H i th Hn). Qed.
@@ -225,11 +270,11 @@ Section Den2.
 
   (* LazyStore::add of a value that denotes v in mode pb: the new location has purity pb *)
   Lemma Sfull_add w sig' st lv v pb dbg : Sfull w st -> den2 w pb lv v -> prefix (w_sig w) sig' ->
-    let w' := W (w_rho w ++ [(v, pb)]) sig' in
+    let w' := W (w_rho w ++ [(v, pb)]) sig' (w_tree w) (w_inhl w) in
     wext w w' /\ Sfull w' (st ++ [{| th_state := TUnforced lv; th_dbg := dbg |}]) /\
     nth_error (w_rho w') (length st) = Some (v, pb).
   Proof.
-    intros [Hlen Hok] Hd Hs w'. assert (Hx : wext w w') by (split; [apply prefix_app|exact Hs]).
+    intros [Hlen Hok] Hd Hs w'. assert (Hx : wext w w') by (split; [apply prefix_app|split; [exact Hs|split; reflexivity]]).
     assert (Hnew : nth_error (w_rho w') (length st) = Some (v, pb)).
     { unfold w'. cbn [w_rho]. rewrite <- Hlen, nth_error_app2, Nat.sub_diag by lia. reflexivity. }
     split; [exact Hx|]. split; [|exact Hnew]. split.
@@ -241,7 +286,7 @@ Section Den2.
           rewrite app_length in H. cbn [length] in H. lia. }
         subst i. rewrite nth_error_app2, Nat.sub_diag in Hn by lia. cbn in Hn. inversion Hn; subst th. exists v, pb.
         split; [exact Hnew|]. cbn [th_state]. eapply den2_mono; [|exact Hd].
-        split; [|exact Hs]. unfold w', wcut. cbn [w_rho w_sig]. rewrite <- Hlen, firstn_app, firstn_all, Nat.sub_diag, firstn_O, app_nil_r. apply prefix_refl.
+        split; [|split; [exact Hs|split; reflexivity]]. unfold w', wcut. cbn [w_rho w_sig]. rewrite <- Hlen, firstn_app, firstn_all, Nat.sub_diag, firstn_O, app_nil_r. apply prefix_refl.
   Qed.
 
   (* ---------------- cells ---------------- *)
@@ -256,6 +301,41 @@ Section Den2.
   Definition cells_ok (w : world) (cells : list (ident * scoped_values)) : Prop :=
     forall name, match alist_get name cells with Some c => cell_ok w name c | None => sig_for name (w_sig w) = [] end.
   Definition sig_nodup (w : world) : Prop := NoDup (map fst (w_sig w)).
+  (* no definition of an inherited name on a node AND on one of its proper ancestors *)
+  Definition sig_antichain (w : world) : Prop :=
+    forall name n a l1 l2, winh w name = true -> In a (anc (w_tree w) n) -> In (n, name, l1) (w_sig w) -> In (a, name, l2) (w_sig w) -> False.
+  (* the world is about this tree and this file's inherited names *)
+  Definition wstatic (t : tree) (fl : file) (w : world) : Prop := w_tree w = t /\ w_inhl w = f_inherited fl.
+
+  Lemma nmap_get_forced_in ds n : nmap_get (forced_map ds) n <> None -> exists loc, In (n, loc) ds.
+  Proof.
+    induction ds as [|[k l0] ds IH]; cbn [forced_map map nmap_get fst snd]; [congruence|].
+    destruct (N.eqb_spec n k) as [->|Hne]; [intros _; exists l0; left; reflexivity|]. intros H. destruct (IH H) as [loc Hl]. exists loc. right. exact Hl.
+  Qed.
+  (* LazyScopedVariable::resolve on the forced map: own node first, then (inherited names) the nearest ancestor *)
+  Lemma resolve_forced t fl w name n a loc : sig_nodup w -> sig_antichain w -> wstatic t fl w ->
+    (a = n \/ (winh w name = true /\ In a (anc (w_tree w) n))) -> In (a, name, loc) (w_sig w) ->
+    match nmap_get (forced_map (sig_for name (w_sig w))) n with
+    | Some v => Some v
+    | None => if linherited fl name then
+                lancestor_lookup t (S (length (t_nodes t))) (forced_map (sig_for name (w_sig w)))
+                  (match node_at t n with Some nd => tn_parent nd | None => None end)
+              else None
+    end = Some (LVar (N.of_nat loc)).
+  Proof.
+    intros Hnd Hac [Ht Hi] Ha Hin. pose proof (sig_for_nodup name _ Hnd) as Hnd'. pose proof (sig_for_in name _ a loc Hin) as Hin'.
+    destruct Ha as [->|[Hinh Hanc]]; [rewrite (nmap_get_forced_some _ n loc Hnd' Hin'); reflexivity|].
+    destruct (nmap_get (forced_map (sig_for name (w_sig w))) n) as [x|] eqn:En.
+    - exfalso. destruct (nmap_get_forced_in (sig_for name (w_sig w)) n) as [l1 Hl1]; [congruence|]. apply sig_for_in_inv in Hl1. apply (Hac name n a l1 loc Hinh Hanc Hl1 Hin).
+    - assert (El : linherited fl name = true) by (unfold linherited; rewrite <- Hi; exact Hinh). rewrite El.
+      rewrite lancestor_lookup_nearest. rewrite Ht in Hanc. fold (parent_of t n). fold (anc t n).
+      apply (first_some_unique _ _ a); [exact Hanc|apply (nmap_get_forced_some _ a loc Hnd' Hin')|].
+      intros a' Ha' Hne. destruct (nmap_get (forced_map (sig_for name (w_sig w))) a') as [x|] eqn:Ea'; [|reflexivity]. exfalso.
+      destruct (nmap_get_forced_in (sig_for name (w_sig w)) a') as [l1 Hl1]; [congruence|]. apply sig_for_in_inv in Hl1.
+      destruct (anc_chain t n a' a Ha' Hanc) as [E|[H|H]]; [contradiction| |]; rewrite <- Ht in H.
+      + apply (Hac name a' a l1 loc Hinh H Hl1 Hin).
+      + apply (Hac name a a' loc l1 Hinh H Hin Hl1).
+  Qed.
 
   Section Force.
     Variables (t : tree) (fl : file).
@@ -279,7 +359,7 @@ Section Den2.
     Proof.
       induction fuel as [|fuel IH]; intros w; [split; [intros k lv v ls p _ _ _|intros]; exact I|]. destruct (IH w) as [IHe IHt]. split.
       - intros k lv v ls p Hst Hd Hb. cbn [eval_lv]. apply lres_bind. apply lres_poll; [exact Hb|]. intros p0 Hb0.
-        inversion Hd as [v0|es vs HF|es vs HF|loc v0 pb Hn Hpb|sv name n loc v0 pb Eb Hsv Hin Hn|f args vs v0 HF Hc]; subst.
+        inversion Hd as [v0|es vs HF|es vs HF|loc v0 pb Hn Hpb|sv name n a loc v0 pb Eb Hsv Ha Hin Hn|f args vs v0 HF Hc]; subst.
         + apply lres_ret. apply g_here; [apply T0_refl|exact Hst|exact Hb0].
         + apply lres_bind. eapply lres_mono; [apply (g_mapM _ _ _ (T0_refl k w) (T0_trans k w) _ (IHe k) es vs ls p0 HF Hst Hb0)|].
           intros vs' ls1 p1 (-> & H). apply lres_ret. split; [reflexivity|exact H].
@@ -408,14 +488,14 @@ Section Den2.
       intros H Hc name'. rewrite alist_get_set. destruct (str_eqb_spec name' name) as [->|Hne]; [exact Hc|apply H].
     Qed.
 
-    Lemma force1_all : forall fuel w, sig_nodup w ->
+    Lemma force1_all : forall fuel w, sig_nodup w -> sig_antichain w -> wstatic t fl w ->
       (forall k, gspec (den2 (wcut k w) false) (I1 k w) (T1 k w) (eval_lv' fuel)) /\
       (forall loc v pb k ls p, I1 k w (l_store ls) (l_scoped ls) -> (N.to_nat loc < k)%nat -> nth_error (w_rho w) (N.to_nat loc) = Some (v, pb) -> nob p ->
          lres (force_thunk' fuel loc ls p) (gpost1 k w v ls)).
     Proof.
-      induction fuel as [|fuel IH]; intros w Hnd; [split; [intros k lv v ls p _ _ _|intros]; exact I|]. destruct (IH w Hnd) as [IHe IHt]. split.
+      induction fuel as [|fuel IH]; intros w Hnd Hac Hws; [split; [intros k lv v ls p _ _ _|intros]; exact I|]. destruct (IH w Hnd Hac Hws) as [IHe IHt]. split.
       - intros k lv v ls p Hst Hd Hb. cbn [eval_lv]. apply lres_bind. apply lres_poll; [exact Hb|]. intros p0 Hb0.
-        inversion Hd as [v0|es vs HF|es vs HF|loc v0 pb Hn Hpb|sv name n loc v0 pb Eb Hsv Hin Hn|f args vs v0 HF Hc]; subst.
+        inversion Hd as [v0|es vs HF|es vs HF|loc v0 pb Hn Hpb|sv name n a loc v0 pb Eb Hsv Ha Hin Hn|f args vs v0 HF Hc]; subst.
         + apply lres_ret. apply g_here; [apply T1_refl|exact Hst|exact Hb0].
         + apply lres_bind. eapply lres_mono; [apply (g_mapM _ _ _ (T1_refl k w) (T1_trans k w) _ (IHe k) es vs ls p0 HF Hst Hb0)|].
           intros vs' ls1 p1 (-> & H). apply lres_ret. split; [reflexivity|exact H].
@@ -424,20 +504,20 @@ Section Den2.
         + cbn [wcut w_rho] in Hn. apply nth_error_firstn_lt in Hn. destruct Hn as [Hlt Hn].
           apply (IHt loc v pb k ls p0 Hst Hlt Hn Hb0).
         + (* scoped read: the scope, then the cell (level 0), then the value thunk of the definition found *)
-          cbn [wcut w_sig] in Hin.
+          change (winh (wcut k w) name) with (winh w name) in Ha. cbn [wcut w_sig w_tree] in Hin, Ha.
           apply lres_bind. apply lres_ctx. apply lres_bind.
           eapply lres_mono; [apply (IHe k sv (VSyn n) ls p0 Hst Hsv Hb0)|]. intros v' ls1 p1 (-> & Hb1 & G1).
           eapply lres_lift; [reflexivity|].
           pose proof (gstep_inv _ _ _ _ G1) as [Hst1 Hc1].
           apply lres_bind. unfold cell_get. apply lres_get. apply lres_ret.
-          pose proof (Hc1 name) as Hcell. pose proof (sig_for_in name _ n loc Hin) as Hin'.
+          pose proof (Hc1 name) as Hcell. pose proof (sig_for_in name _ a loc Hin) as Hin'.
           destruct (alist_get name (l_scoped ls1)) as [cell|]; [|rewrite Hcell in Hin'; destruct Hin'].
           apply lres_bind. unfold cell_set at 1. apply lres_get. unfold set_lscoped, Lazy.upd. apply lres_modify.
           apply lres_bind.
           set (ls2 := set_scoped_l (alist_set name SVForcing (l_scoped ls1)) ls1).
           eapply lres_mono; [apply (force_scoped_ok fuel name cell w ls2 p1 Hnd Hcell (S1_S0 _ _ w _ Hst1) Hb1)|].
           intros m ls3 p3 (-> & Hb3 & st3 & sc3 & -> & Hst3 & (Hsc3 & Hun3)). cbn [ls2 set_scoped_l l_store l_scoped] in Hsc3, Hun3, Hst3. subst sc3.
-          cbv zeta. rewrite (nmap_get_forced_some _ n loc (sig_for_nodup name _ Hnd) Hin').
+          cbv zeta. rewrite (resolve_forced t fl w name n a loc Hnd Hac Hws Ha Hin).
           apply lres_bind. unfold cell_set. apply lres_get. unfold set_lscoped, Lazy.upd. apply lres_modify.
           cbn [ls2 set_scoped_l set_store l_graph l_locals l_store l_scoped l_edges l_attrs l_prints l_params l_prev].
           set (sc4 := alist_set name (SVForced (forced_map (sig_for name (w_sig w)))) (alist_set name SVForcing (l_scoped ls1))).
@@ -498,20 +578,20 @@ Section Den2.
       intros [Hl _] (-> & Hb' & st' & sc' & -> & [Hst' Hc'] & _). split; [reflexivity|]. split; [exact Hb'|]. exists st', sc'. split; [reflexivity|].
       split; [|exact Hc']. apply S1_Sfull. replace (length st') with (length (l_store ls)) by (rewrite <- Hl; apply (proj1 Hst')). exact Hst'.
     Qed.
-    Lemma force1_full fuel w lv v ls p : sig_nodup w -> Sfull w (l_store ls) -> cells_ok w (l_scoped ls) -> den2 w false lv v -> nob p ->
+    Lemma force1_full fuel w lv v ls p : sig_nodup w -> sig_antichain w -> wstatic t fl w -> Sfull w (l_store ls) -> cells_ok w (l_scoped ls) -> den2 w false lv v -> nob p ->
       lres (eval_lv' fuel lv ls p) (full_post1 w v ls).
     Proof.
-      intros Hnd Hst Hc Hd Hb. destruct (force1_all fuel w Hnd) as [He _].
+      intros Hnd Hac Hws Hst Hc Hd Hb. destruct (force1_all fuel w Hnd Hac Hws) as [He _].
       rewrite <- (wcut_all w (length (l_store ls))) in Hd by (symmetry; apply (proj1 Hst)).
       eapply lres_mono; [apply (He _ lv v ls p (conj (Sfull_S1 _ w _ Hst) Hc) Hd Hb)|]. intros v' ls' p'. apply gpost1_full, Hst.
     Qed.
-    Lemma force1_full_thunk fuel w i ls p : sig_nodup w -> Sfull w (l_store ls) -> cells_ok w (l_scoped ls) -> (i < length (l_store ls))%nat -> nob p ->
+    Lemma force1_full_thunk fuel w i ls p : sig_nodup w -> sig_antichain w -> wstatic t fl w -> Sfull w (l_store ls) -> cells_ok w (l_scoped ls) -> (i < length (l_store ls))%nat -> nob p ->
       lres (force_thunk' fuel (N.of_nat i) ls p)
            (fun _ ls' p' => nob p' /\ exists st' sc', ls' = set_scoped_l sc' (set_store st' ls) /\ Sfull w st' /\ cells_ok w sc').
     Proof.
-      intros Hnd Hst Hc Hi Hb. pose proof (proj1 Hst) as Hlen.
+      intros Hnd Hac Hws Hst Hc Hi Hb. pose proof (proj1 Hst) as Hlen.
       destruct (nth_error (w_rho w) i) as [[v pb]|] eqn:Ev; [|apply nth_error_None in Ev; lia].
-      destruct (force1_all fuel w Hnd) as [_ Ht].
+      destruct (force1_all fuel w Hnd Hac Hws) as [_ Ht].
       eapply lres_mono; [apply (Ht (N.of_nat i) v pb (length (l_store ls)) ls p (conj (Sfull_S1 _ w _ Hst) Hc)); rewrite ?Nnat.Nat2N.id; [exact Hi|exact Ev|exact Hb]|].
       intros v' ls' p' HP. apply (gpost1_full w v ls v' ls' p' Hst) in HP. destruct HP as (_ & H). exact H.
     Qed.
